@@ -9,6 +9,7 @@ use std::panic::{catch_unwind, AssertUnwindSafe};
 use std::path::PathBuf;
 
 pub mod rings;
+pub mod links;
 
 /// SplitMix64: every random choice of a run derives from `VERIF_SEED`.
 #[derive(Clone)]
